@@ -53,6 +53,18 @@ def cells(tier):
     out += make_cells(PID, 'exc', tier, N=3, thin=plain2, extra={'prefail': True}, suffix='after-refused-messages')
     # ... and when every story was re-sent by a roStorySend before
     out += make_cells(PID, 'exc', tier, N=3, thin=plain2, extra={'presend': True}, suffix='after-roStorySend-of-every-story')
+    # carried stories / items without the optional slug (fresh ones and duplicates)
+    out += make_cells(PID, 'exc', tier, N=3, thin=lambda op, story_k, tk, sk, nk: nk is not None and story_k in (None, 'existing') and tk in (None, 'existing', 'blank'),
+                      extra={'carried_slug': False}, suffix='carried-without-slug')
+    # roDelete / roReadyToAir into timed, untimed, empty running orders; a roDelete naming another or no running order
+    from .p_c03 import icell
+    T_ = 60 if tier == 'quick' else 600
+    for op in ('roDelete', 'roReadyToAir'):
+        for N_ in (0, 2):
+            out.append(icell(PID, op, N=N_, T=T_, prop='exc'))
+    out.append(icell(PID, 'roDelete', N=2, T=T_, prop='exc', free_roid=True))
+    out.append(icell(PID, 'roDelete', N=2, T=T_, prop='exc', twice='free'))
+    out.append(icell(PID, 'roDelete', N=2, T=T_, prop='exc', edstart='2022-03-04T12:29:45', last_ended='2022-03-04T13:00:00Z'))
     # a container that holds the same ID twice (first and last element)
     out += make_cells(PID, 'exc', tier, N=3, thin=plain2, extra={'dup_state': [0, 2]}, suffix='repeated-id-in-container')
     # the smallest shapes: one story / item, and every story / item of the container named by the message
